@@ -8,6 +8,18 @@ COMPONENTS = ["box_u8", "box_hash", "box_varint", "txin", "target", "txout", "pr
               "vec_txin", "vec_txout", "vec_varint", "vec_hash", "hash", "hash8", "u8", "u32", "bytesvec", "varint"]
 
 
+def G_varint(n):
+    out = bytearray()
+    while True:
+        b = n & 0x7f
+        n >>= 7
+        if n:
+            out.append(b | 0x80)
+        else:
+            out.append(b)
+            return bytes(out)
+
+
 class C01(Check):
     pid = "C01"
     rule = ("op reser T hex for T in {tx, block, prefix, header, txin, txout, target, signature, rcttype, bulletproof, bpplus, "
@@ -137,6 +149,12 @@ class C01(Check):
             for _ in range(4 if not thorough else 12):
                 m = G.multi_mutation(b, rng, rng.randint(2, 6))
                 cs.append(Case("reser %s %s %s" % (sz, T, m.hex() or "-"), "mutN-" + T))
+        # vectors of more than 2^16 elements (no mutation, just the exact parse-then-serialise)
+        for n in (65536, 65537, 70001):
+            body = bytes(rng.getrandbits(8) for _ in range(n))
+            cs.append(Case("reser %s bytesvec %s" % (sz, (G_varint(n) + body).hex()), "vec-over-2^16"))
+            cs.append(Case("reser %s box_u8 %s" % (sz, (G_varint(n) + body).hex()), "vec-over-2^16"))
+        cs.append(Case("reser %s vec_varint %s" % (sz, (G_varint(65537) + bytes([i % 128 for i in range(65537)])).hex()), "vec-over-2^16"))
         # structural dump comparison on the seeds (model dump = implementation dump)
         for T, b, cls in seeds:
             cs.append(Case("dec %s %s %s" % (sz, T, b.hex() or "-"), "dump-" + T))
